@@ -3195,7 +3195,7 @@ pub fn generate(prop: &str, verif_seed: u64, idx: u64) -> Scenario {
             if let Workload::Dump(p) = &mut sc.workload {
                 p.dests = vec![dest_plan(&mut r, false)];
                 if r.chance(1, 4) {
-                    p.dests[0].short_entry = *r.pick(&[1u64, 4, 7, 8, 11]);
+                    p.dests[0].short_entry = *r.pick(&[1u64, 2, 3, 4, 7, 8, 11]);
                     sc.tags.push("entry-writes-split".into());
                 }
             }
